@@ -137,6 +137,7 @@ def run(ctx, col, tier):
     col.guard(lens_cells, ctx, col)
     col.guard(concentric, ctx, col)
     col.guard(helpers, ctx, col)
+    col.guard(root_count, ctx, col)
     col.guard(ladders, ctx, col)
 
 
@@ -673,3 +674,36 @@ def ladders(ctx, col):
         bases = [norm_src(b) for b in c.node.bases]
         col.check(base in bases, R_, c.qualname, f"{c.module.relpath}:{c.node.lineno}", f"{cls}: operand order (sphere first)", str(bases),
                   f"bases {bases}", stmt="bases")
+
+
+def root_count(ctx, col):
+    """Line / sphere intersection: the number of intersection points is decided by the sign of the discriminant, exactly."""
+    from ..fold import Folder, Unfoldable
+    repo = ctx.repo
+    d = repo.get_def("swcgeom.utils.solid_geometry.find_sphere_line_intersection")
+    want = {-1.0: 0, 0.0: 1, 1e-12: 2, 1.0: 2}
+    for v, n_want in want.items():
+        n_got, why = None, ""
+        try:
+            for st in d.node.body:
+                if isinstance(st, ast.If) and "discriminant" in {x.id for x in ast.walk(st.test) if isinstance(x, ast.Name)}:
+                    if bool(Folder(repo, d.module, None, {"discriminant": v}).eval(st.test)):
+                        ret = next((r for r in st.body if isinstance(r, ast.Return)), None)
+                        if ret is None or not isinstance(ret.value, (ast.List, ast.Tuple)):
+                            raise Unfoldable("the arm does not return a list display")
+                        n_got = len(ret.value.elts)
+                        break
+                elif isinstance(st, ast.Return):
+                    if not isinstance(st.value, (ast.List, ast.Tuple)):
+                        raise Unfoldable("the final return is not a list display")
+                    n_got = len(st.value.elts)
+                    break
+        except Unfoldable as e:
+            why = str(e)
+        what = f"discriminant = {v:g}: {n_want} intersection point(s)"
+        if n_got is None:
+            col.unresolved("R-LINE", d.qualname, d.loc(), what, why or "no return reached", stmt=f"roots:{v:g}")
+        else:
+            col.check(n_got == n_want, "R-LINE", d.qualname, d.loc(), what, f"{n_got}",
+                      f"{n_got} point(s) are returned for a discriminant of {v:g}: the number of real roots is decided by the sign of the discriminant "
+                      f"(a tolerance here turns every sufficiently small, i.e. small-scale, secant into a tangent)", stmt=f"roots:{v:g}", definite=True)
